@@ -320,6 +320,29 @@ def _gen_cases(tier):
             for bn, bf in before:
                 for an, af in after:
                     out.append((f"run:{tn}x{n}:{bn}:{an}", row(*(bf() + [tk() for _ in range(n)] + af()))))
+    # the same tokens NOT adjacent: separated by single operands (leaf and non-leaf), three and four occurrences, starting with the
+    # token or with an operand - counters that are kept across siblings show here
+    opers = [lambda: mi("a"), lambda: mn("2"), lambda: el("mfrac", mn("1"), mn("2")), lambda: el("msqrt", mi("y")), lambda: mi("c"), lambda: el("msup", mi("z"), mn("2"))]
+    for tn, tk in toks:
+        for n in (3, 4):
+            for first in ("tok", "oper"):
+                for shift in (0, 2):
+                    kids = []
+                    for i in range(n):
+                        o = opers[(i + shift) % len(opers)]()
+                        kids += [tk(), o] if first == "tok" else [o, tk()]
+                    out.append((f"alt:{tn}x{n}:{first}:{shift}", row(*kids)))
+    # a token whose WHOLE text is one special character (signs, dashes, dots, quotes, bars, blanks, digits-like) in every token kind,
+    # alone, between operands and in a slot of a 2-D element
+    specials_ = ["-", "\u2212", "\u2013", "\u2010", "+", "\u00b1", ".", ",", ";", ":", "'", "\u2032", "\"", "|", "\u2016", "_", "\u00a0", "\u2026", "\u22ef", "%", "\u00b0", "/", "\u2215",
+                 "\u2044", "!", "=", "(", ")", "[", "]", "\u2061", "\u2062", "\u221e", "\u00bd", "\u2162", "0", "x", "\u03c0"]
+    for c in specials_:
+        for kind in ("mi", "mn", "mo", "mtext"):
+            tkn = lambda: terms.T(kind, text=c)
+            out.append((f"lone:U+{ord(c):04X}:{kind}:alone", row(tkn())))
+            out.append((f"lone:U+{ord(c):04X}:{kind}:between", row(mi("x"), tkn(), mn("3"))))
+            out.append((f"lone:U+{ord(c):04X}:{kind}:numerator", el("mfrac", tkn(), mn("2"))))
+            out.append((f"lone:U+{ord(c):04X}:{kind}:exponent", el("msup", mi("x"), tkn())))
     # level 1: one deviation at every position
     dev_shapes = terms.spine_shapes(1) if tier == "quick" else terms.spine_shapes(2)
     for sh in dev_shapes:
